@@ -376,7 +376,19 @@ class JSONVisitor:
                 return
 
             children: Any = [n.TargetIdentifier((line,), [], [node_id])]
-            self.state.append(n.Target((line,), children, "std", "label", None, None))
+            if isinstance(
+                node.parent, tinydocutils.nodes.TextElement
+            ) and not isinstance(node.parent, tinydocutils.nodes.paragraph):
+                # An inline hyperlink target (_`text`) inside a title, term, line or other
+                # container that may only hold inline nodes: emit the inline flavour of the
+                # target node. (Paragraphs may hold either and keep the plain target.)
+                self.state.append(
+                    n.InlineTarget((line,), children, "std", "label", None, None)
+                )
+            else:
+                self.state.append(
+                    n.Target((line,), children, "std", "label", None, None)
+                )
         elif isinstance(node, rstparser.target_identifier):
             self.state.append(n.TargetIdentifier((line,), [], node["ids"]))
         elif isinstance(node, tinydocutils.nodes.definition_list):
